@@ -136,6 +136,7 @@ def specRun (P : Program) (ws : List (Nat × Nat)) : Nat → Loc × State → Li
     match Sem.succs P d with
     | [d'] => entryStr Sem.value P d d' :: specRun P ws n d'
     | [] =>
+      if (Sem.leavesProgram P d).isSome then ["lift"] else
       match Sem.whyStuck P d with
       | some ks => if ks.isEmpty || ks.any (fun k => !named.contains k) then ["?"] else [errSetStr ks]
       | none => ["?"]
